@@ -4,7 +4,7 @@ CONSTANTS
   SHAPES <- T_SHAPES
   RANKS = {1, 2, 4}
   EPSEXP = {12, 8, 4, 2, 1}
-  GUESS = {"none", "fresh", "big", "alias", "reused"}
+  GUESS = {"none", "fresh", "big", "alias", "reused", "exact1", "exact2", "zero"}
   SEEDS = {1, 2, 3}
   BACKENDS = {"py"}
   PREC = {}
